@@ -160,7 +160,10 @@ def r_globals(ctx, prog):
                 t = tt.term(i.args[0])
                 root = addr_root(t) if t[0] != 'global' else ('global', t[1])
                 if root[0] == 'global' and root[1] in REVIEWED_GLOBALS:
-                    ctx.fail(R, i, 'write:%s:%s' % (root[1], f.name), '%s overwrites global %s' % (f.name, root[1]))
+                    # a reviewed writer may also write through libc (a generator clearing part of its own table)
+                    okw = f.name in REVIEWED_GLOBALS[root[1]][0] and i.callee in ('memset', 'bzero', 'memcpy') and \
+                        (i.callee != 'bcopy')
+                    ctx.instance(R, okw, i, 'write:%s:%s' % (root[1], f.name), '%s overwrites global %s' % (f.name, root[1]))
     for name in sorted(REVIEWED_GLOBALS):
         if name in seen:
             ctx.ok(R, (name, '-'), 'reviewed:' + name, REVIEWED_GLOBALS[name][1])
